@@ -226,7 +226,7 @@ pub fn run(tier: &str) -> i32 {
     // (2b) the example binary itself, for every worker count this machine can present (CPU affinity k => k-1 workers)
     if let Ok(bin) = std::env::var("VERIF_EXAMPLE_BIN") {
         use espada::hand_range::HandRange;
-        let configs: Vec<(&str, Vec<&str>)> = vec![("Qs8d2h", vec!["JJ+", "A2s+"]), ("AsKd7c", vec!["QQ+", "AKs,AKo", "76s:0.5,2c2d"])];
+        let configs: Vec<(&str, Vec<&str>)> = vec![("Qs8d2h", vec!["JJ+", "A2s+"]), ("AsKd7c", vec!["QQ+", "AKs,AKo", "76s:0.5,2c2d"]), ("Ks9d4c", vec!["AA:0,QQ", "JJ:0.25,TT:0,9s9h"])];
         let cpus = vlib::par::n_threads().max(2);
         let ks: Vec<usize> = if thorough { (2..=cpus).collect() } else { [2usize, 3, 4, 5, 8, 12, 16].iter().cloned().filter(|k| *k <= cpus).collect() };
         let mut runs = 0u64;
